@@ -15,12 +15,15 @@
 (*   - the machine and the set-valued operator CGTxLoops!FasOrderings      *)
 (*     (used by JudgeTx) describe the same orderings.                      *)
 (***************************************************************************)
-EXTENDS CGTxLoops, CGFamilies
+EXTENDS CGTxLoops, CGFamilies, IOUtils
 
 VARIABLES N, E, rem, s1, s2, phase
 vars == <<N, E, rem, s1, s2, phase>>
 
-Init == /\ \E c \in DG3(0) \cup DG4(0) : N = NameSet(c) /\ E = EdgeNames(c)
+\* thorough tier: also every digraph on 5 labelled nodes with at most 8 edges (263 950 graphs)
+Full == "MC_FULL" \in DOMAIN IOEnv
+DG5s == {GraphCirc(5, X) : X \in {Y \in SUBSET PairsNE(5) : Cardinality(Y) <= 8}}
+Init == /\ \E c \in DG3(0) \cup DG4(0) \cup (IF Full THEN DG5s ELSE {}) : N = NameSet(c) /\ E = EdgeNames(c)
         /\ rem = N /\ s1 = <<>> /\ s2 = <<>> /\ phase = "sinks"
 Sinks == /\ phase = "sinks"
          /\ LET S == {n \in rem : OutDegIn(E, rem, n) = 0} IN
